@@ -451,16 +451,24 @@ impl Prop for C09 {
                 let (ocount, opitch) = if nested { levels[1] } else { (1, (0, 0)) };
                 let (rh, rv) = (cx.rng.bool(), cx.rng.bool());
                 let loc = (cx.rng.range(-500, 500) as isize, cx.rng.range(-500, 500) as isize);
-                let ai = Ptr::new(ArrayInstance { name: "arr".into(), array: top, loc: Place::Abs(Xy::new(PrimPitches::x(loc.0), PrimPitches::y(loc.1))), reflect_vert: rv, reflect_horiz: rh });
+                let ai = Ptr::new(ArrayInstance { name: "arr".into(), array: top.clone(), loc: Place::Abs(Xy::new(PrimPitches::x(loc.0), PrimPitches::y(loc.1))), reflect_vert: rv, reflect_horiz: rh });
                 let mut parent = Layout::new("parent", 0, Outline::rect(10_000, 10_000).unwrap());
                 parent.places.push(Placeable::Array(ai));
+                // every other time a second bank of the SAME array definition (the same `Ptr<Array>` at every level) elsewhere, with its own
+                // reflections: expanding a definition a second time gives the same copies as the first
+                let bank2 = if cx.rng.bool() { Some(((cx.rng.range(-4000, 4000) as isize, cx.rng.range(-4000, 4000) as isize), cx.rng.bool(), cx.rng.bool())) } else { None };
+                if let Some((l2, rh2, rv2)) = bank2 {
+                    parent.places.push(Placeable::Array(Ptr::new(ArrayInstance { name: "arr2".into(), array: top.clone(), loc: Place::Abs(Xy::new(PrimPitches::x(l2.0), PrimPitches::y(l2.1))), reflect_vert: rv2, reflect_horiz: rh2 })));
+                    cx.count("array_definitions_expanded_twice");
+                }
                 lib.cells.add(parent);
                 cx.nontrivial(crate::rt::prng::strhash(&format!("{:?}{:?}{:?}{}{}", size, levels, loc, rh, rv)));
                 cx.count(&format!("array_nesting_depth_{}", depth));
                 // reference expansion: every index tuple, offsets summed over the levels, then the instance's reflection and location
                 let mut want: Vec<(isize, isize, bool, bool)> = Vec::new();
                 let total: usize = levels.iter().map(|l| l.0).product();
-                for flat in 0..total {
+                let banks: Vec<((isize, isize), bool, bool)> = std::iter::once((loc, rh, rv)).chain(bank2.into_iter()).collect();
+                for (flat, (loc, rh, rv)) in banks.iter().flat_map(|b| (0..total).map(move |f| (f, *b))) {
                     let (mut rem, mut x, mut y) = (flat, 0isize, 0isize);
                     for (c, p) in &levels {
                         let i = (rem % c) as isize;
